@@ -83,7 +83,7 @@ func (Engine) Describe(prop string) core.Description {
 			"'no result' on error: nil / zero value / empty list",
 		}
 		d.FaultKinds = append(append([]string{"F1-fragmentation"}, wire.AllFaults...), "F10-bloat")
-		d.Probes = []string{"delivery-accepted", "delivery-rejected", "result-conformance-checked", "read-error-propagated", "truncated-inside-string", "unknown-type-in-body", "partial-accepted", "collection-accepted", "identifier-accepted", "schema-edited-between-deliveries"}
+		d.Probes = []string{"attribute-added-between-deliveries", "attribute-added-to-a-struct-backed-type", "delivery-accepted", "delivery-rejected", "result-conformance-checked", "read-error-propagated", "truncated-inside-string", "unknown-type-in-body", "partial-accepted", "collection-accepted", "identifier-accepted", "schema-edited-between-deliveries"}
 	}
 
 	d.Rule += "; in a quarter of the runs the schema is reached through a longer edit history (scaffold types added between the real ones and removed again, an attribute added after its type, temporary fields added and removed) with the same final content"
